@@ -104,4 +104,17 @@ def goldens(rng):
     out.append(("ip4_frag_last_short", ether(m1, m2, 0x0800, ipv4(a4, b4, 17, pay(8), b"", flags_frag=0x0003))))
     out.append(("ip4_frag_mid_vlan", ether(m1, m2, 0x0800, ipv4(a4, b4, 6, pay(16), b"", flags_frag=0x2005), (0x0001,))))
     out.append(("ip4_udp_short", ether(m1, m2, 0x0800, ipv4(a4, b4, 17, lambda ps: udp(1, 2, pay(1), ps)))))
+    # DNS messages with names at and just beyond the legal limits (255 octets on the wire / 253 characters as text)
+    for labels in ([63, 63, 63, 61], [63, 63, 63, 62], [63, 63, 63, 62, 1], [63, 63, 63, 63], [1] * 126, [1] * 127, [1] * 128, [62, 63, 63, 63]):
+        qname = b"".join(bytes([n]) + bytes([97 + (i % 26)]) * n for i, n in enumerate(labels)) + b"\0"
+        msg = struct.pack("!HHHHHH", 0x4242, 0x8180, 1, 1, 0, 0) + qname + struct.pack("!HH", 1, 1) + bytes([0xc0, 12]) + struct.pack("!HHIH", 5, 1, 60, 2) + bytes([0xc0, 12])
+        out.append(("dns_name_%d_%d" % (len(labels), sum(labels)), ether(m1, m2, 0x0800, ipv4(a4, b4, 17, lambda ps: udp(53, 4000, msg, ps)))))
     return out
+
+
+def l3_offset(frame):
+    """offset of the network header in an Ethernet frame built by ether()"""
+    o = 12
+    while frame[o:o + 2] in (b"\x81\x00", b"\x88\xa8"):
+        o += 4
+    return o + 2
